@@ -34,7 +34,8 @@ def model_walk(repo: Repo, cls: str, method: str) -> Walker:
     if key not in repo.memo:
         fi = repo.need_method(cls, method)
         repo.memo[key] = Walker(repo, fi, self_class=cls, inline=inline_private_model_helpers)
-        from .ir import settle_removed_costs
+        from .ir import settle_lazy_inits, settle_removed_costs
+        settle_lazy_inits(repo.memo[key])
         settle_removed_costs(repo.memo[key])
     return repo.memo[key]
 
